@@ -195,6 +195,7 @@ def run(ctx):
     from .c07 import register_api
     register_api(ctx, "C06.R6")
     _driver(ctx)
+    _use_def_maps(ctx)
     from .c23 import frame_slots
     frame_slots(ctx, "C06.R8")      # spill slots are Frame.alloc slots: two that overlap are two values sharing storage
 
@@ -277,3 +278,30 @@ def _driver(ctx):
     need = ["self.select_stack", "self.coalescedMoves", "self.constrainedMoves", "self.frozenMoves", "self.activeMoves", "self.worklistMoves", "self.spill_worklist", "self.freeze_worklist", "self.simplify_worklist", "self.precolored"]
     ok = all(fresh.get(k) in ("[]", "OrderedSet()") for k in need)
     ctx.ob("C06.R7", s, "every worklist, move set and the select stack start empty in each round (nothing of the round before the spill survives)", ok, construct="fresh-worklists", detail=str([k for k in need if fresh.get(k) not in ("[]", "OrderedSet()")]))
+
+
+def _use_def_maps(ctx):
+    """R9: spilling rewrites the instructions listed by ig.uses(tmp) / ig.defs(tmp).  Those lists are filled while the
+    interference graph is built; an instruction missing from them keeps reading the old register after its
+    definitions were redirected to the spill slot."""
+    ctx.rule("C06.R9", "calculate_interference records EVERY instruction under each register it reads (uses) and writes (defs), whatever its live sets are; uses()/defs() return those lists and rewrite_program rewrites their union", floor=4)
+    ci = ctx.fn(IG, "InterferenceGraph.calculate_interference")
+    s = IG + ":InterferenceGraph.calculate_interference"
+    inner = [l for l in ast.walk(ci) if isinstance(l, ast.For) and norm(l.iter).endswith(".instructions")]
+    ctx.need(len(inner) == 1, "calculate_interference: loop over the instructions not found")
+    ins = norm(inner[0].target)
+    from ..sym import conjuncts
+    rec = {}
+    for l in inner[0].body:
+        if isinstance(l, ast.For) and norm(l.iter) in ("%s.defined_registers" % ins, "%s.used_registers" % ins):
+            kind = "defs" if "defined" in norm(l.iter) else "uses"
+            apps = [c for c in ast.walk(l) if isinstance(c, ast.Call) and isinstance(c.func, ast.Attribute) and c.func.attr == "append" and norm(c.args[0]) == ins]
+            if apps and norm(apps[0].func.value) == "self._%s_map[%s]" % ("def" if kind == "defs" else "use", norm(l.target)) and not list(conjuncts(apps[0], ci, {})):
+                rec[kind] = l
+    ctx.ob("C06.R9", s, "each instruction is appended to _use_map[r] for every register r it reads and to _def_map[r] for every register it writes, directly in the instruction loop", set(rec) == {"defs", "uses"}, construct="record-uses-defs", detail=str(sorted(rec)))
+    skips = [x for st in inner[0].body for x in ast.walk(st) if isinstance(x, (ast.Continue, ast.Break, ast.Return))]
+    ctx.ob("C06.R9", s, "nothing in the instruction loop skips the rest of the body (a `continue` for instructions without live registers would leave them out of the use/def lists)", not skips, construct="no-skip", node=skips[0] if skips else None)
+    for meth, mp in (("uses", "_use_map"), ("defs", "_def_map")):
+        f = ctx.fn(IG, "InterferenceGraph." + meth)
+        rets = [" ".join(norm(r.value).split()) for r in ast.walk(f) if isinstance(r, ast.Return)]
+        ctx.ob("C06.R9", IG + ":InterferenceGraph." + meth, "%s(tmp) is the recorded list of tmp" % meth, rets == ["self.%s[%s]" % (mp, f.args.args[1].arg)], construct="accessor:" + meth, detail=str(rets))
